@@ -88,7 +88,12 @@ OUTER:
 		m.invalidateLatestSnapshotLOCKED()
 
 		stackCleanPrev = m.stackClean
-		if m.options.CachePersisted {
+		if m.options.CachePersisted &&
+			!m.stackDirtyBase.hasMergeOperations() {
+			// A stack that still holds unresolved merge operations must
+			// not be cached on top of the new lower level snapshot, which
+			// already contains their effect: reads would fold the same
+			// operands a second time.
 			m.stackClean = m.stackDirtyBase
 		} else {
 			m.stackClean = nil
